@@ -1,11 +1,12 @@
 """C12 — mailbox queue."""
-import vlib
-from props import opseq
+import vlib, simgen, oracles
+from props import opseq, chanprops, simprops
 
-HARNESS = ("atomh",)
+HARNESS = ("atomh", "simh")
 TRUSTED = ["Queue.v models positions/stamps as linear counters; the bit encoding of queue.rs (lap | closed flag | index, next_queue_pos, the carry flag of len) is abstracted by a strictly monotone re-encoding and exercised by the correspondence over several laps and capacities 1,2,3,4,5,7,8,16",
            "concurrent part: QueueConc.v models every shared-memory access of Queue::push, Queue::pop and the drop of the MessageBorrow as one step (any number of producers, one consumer, close at any time, spurious failure of compare_exchange_weak), under SEQUENTIALLY CONSISTENT interleaving: the Release/Acquire orderings of the stamp accesses are recorded, not given a weak-memory semantics (the message hand-over through the cell relies on them); the invariant and its consequences (c12_conc_*) are proved for every interleaving; the model is tied to the code by replaying every explored trace of the verbatim queue.rs under the deterministic scheduler step by step in the extracted model (positions, closed flag, stamps after every access; outcomes and delivered values at the end; tools/queuereplay.py), and the same traces are judged by an oracle written from the property text",
-           "wake-up pairing of channel.rs (async_event::Event, diatomic_waker) is trusted; covered behaviourally by the Sim benches with capacity-1 mailboxes (C03/C07)"]
+           "resumption of a waiting sender / receiver (channel.rs over async_event::Event and DiatomicWaker): proved on Chan.v for the programs translated from the current channel.rs (c12_waiting_sender_is_resumed, c12_waiting_receiver_is_resumed); on the real code it is exercised by benches whose senders block on mailboxes of capacity 1..4, on several threads with seeded delays at the channel's hook points (a lost wake-up shows as a hang, a deadlock report or a missing invocation)"]
+TRUSTED = TRUSTED + chanprops.TRUSTED
 ASSUMPTIONS = ["one consumer; at most one outstanding borrow"]
 
 
@@ -85,8 +86,24 @@ def gen_conc(rng, n):
     return out
 
 
+def bench_nontrivial(c, mobs):
+    return sum(1 for o in mobs for e in o[2] if e[0] in "HP") >= 4
+
+
+def small_caps(c):
+    for m in c["models"]:
+        m["cap"] = min(m["cap"], 1 + (len(m["handlers"][0]) % 2))
+    return c
+
+
 def tie(rep, tier, rng, model_ok):
     q = tier == "quick"
+    chanprops.run(rep, tier, rng)
+    dl = tuple("%dd%dp%du%d" % (t, rng.randrange(1, 10**6), pm, us) for t, pm, us in ((4, 400, 100), (2, 500, 50), (3, 300, 150)))
+    d = [small_caps(simgen.gen_net(rng)) for _ in range(120 if q else 3000)]
+    simprops.run(rep, "C12", model_ok,
+                 [("mailbox-wakeups-delayed", d, dl, (oracles.o_harness, oracles.o_exactly_once), bench_nontrivial)],
+                 "blocked senders and a sleeping receiver on the real channel.rs: message-passing benches with mailbox capacities 1..2 and bursts of up to 3x capacity on 2-4 worker threads with seeded delays at the hook points of channel.rs; every accepted message must be processed (closure oracle) and the outcome must equal Sim.v's")
     seq = opseq.load_corpus("C12") + gen_exh(5 if q else 7) + gen_seq(rng, 2000 if q else 40000, 60 if q else 400)
     opseq.check(rep, "queue-seq", seq, vlib.ATOMH, ["seq"], ref_run, nontrivial, model_ok, 2, exhaustive=True,
                 rule="sequential: all op sequences of length %d on capacities 1..3 + random sequences on capacities 1..16 over many laps (push, pop, pop-and-hold, release, close, len, is_closed)" % (5 if q else 7))
@@ -123,6 +140,10 @@ def tie(rep, tier, rng, model_ok):
 def replay(rep, path, model_ok):
     import json
     r = json.load(open(path))
+    if chanprops.replay(r):
+        return
+    if str(r.get("case", "")).startswith("sim "):
+        simprops.replay(rep, path, model_ok); return
     case = r.get("case")
     if not case:
         print("no concrete case:", r.get("what")); return
